@@ -201,6 +201,8 @@ pub struct Importer<'a, R, U> {
     rcrefs: HashMap<PlainRef, AnySync>,
     // ptr of old -> (old, new)
     shared: HashMap<usize, (AnySync, AnySync)>,
+    // objects whose copy is under construction: a reference back to one of them closes a cycle
+    pending: Vec<PlainRef>,
 }
 
 pub struct ImporterMap<R> {
@@ -216,7 +218,17 @@ impl<'a, R, U> Importer<'a, R, U> {
             map: Default::default(),
             rcrefs: Default::default(),
             shared: Default::default(),
+            pending: Vec::new(),
         }
+    }
+    /// The memo entry of an object exists only once its copy is complete, so a reference cycle in the
+    /// source would recurse without bound. Report it instead.
+    fn enter(&mut self, old: PlainRef) -> Result<()> {
+        if self.pending.contains(&old) {
+            bail!("reference cycle through object {} {}", old.id, old.gen);
+        }
+        self.pending.push(old);
+        Ok(())
     }
 }
 impl<'a, R: Resolve, U> Importer<'a, R, U> {
@@ -357,10 +369,11 @@ impl<'a, R: Resolve, U: Updater> Cloner for Importer<'a, R, U> {
         if let Some(&new_ref) = self.map.get(&old.get_inner()) {
             return Ok(Ref::new(new_ref));
         }
-        let obj = self.resolver.get(old)?;
-        let clone = obj.deep_clone(self)?;
+        self.enter(old.get_inner())?;
+        let clone = self.resolver.get(old).and_then(|obj| obj.deep_clone(self));
+        self.pending.pop();
 
-        let r = self.updater.create(clone)?;
+        let r = self.updater.create(clone?)?;
         self.map.insert(old.get_inner(), r.get_ref().get_inner());
 
         Ok(r.get_ref())
@@ -369,10 +382,11 @@ impl<'a, R: Resolve, U: Updater> Cloner for Importer<'a, R, U> {
         if let Some(&new_ref) = self.map.get(&old) {
             return Ok(new_ref);
         }
-        let obj = self.resolver.resolve(old)?;
-        let clone = obj.deep_clone(self)?;
+        self.enter(old)?;
+        let clone = self.resolver.resolve(old).and_then(|obj| obj.deep_clone(self));
+        self.pending.pop();
 
-        let new = self.updater.create(clone)?
+        let new = self.updater.create(clone?)?
             .get_ref().get_inner();
 
         self.map.insert(old, new);
@@ -386,8 +400,11 @@ impl<'a, R: Resolve, U: Updater> Cloner for Importer<'a, R, U> {
             return Ok(RcRef::new(new_ref, arc));
         }
 
-        let new = old.data().deep_clone(self)?;
-        let new = self.updater.create::<T>(new)?;
+        self.enter(old_ref)?;
+        let new = old.data().deep_clone(self);
+        self.pending.pop();
+
+        let new = self.updater.create::<T>(new?)?;
         self.rcrefs.insert(new.get_ref().get_inner(), AnySync::new(new.data().clone()));
         self.map.insert(old_ref, new.get_ref().get_inner());
 
